@@ -1,0 +1,78 @@
+//go:build verif
+
+package lock
+
+// Contracts for /verif (contract-based deductive verification of the real
+// code). Comment-only: no code; visible only with the build tag "verif".
+//
+// Reference automaton of the lock module, written from the property statement
+// (C04): a failure counts cnt+1 if it falls within LockWindow of the previous
+// attempt and restarts the count at 1 otherwise; the account is locked as soon
+// as the new count reaches LockAfter, for LockDuration from that failure; a
+// correct password never changes the count.
+//
+//@ spec step_count(cnt0, last0, nw, W) := ite(nw - last0 <= W, cnt0 + 1, 1)
+//@ spec step_locked(c, locked0, nl, A, D) := ite(c >= A, nl + D, locked0)
+//@
+//@ func (*Lock).updateLockedState
+//@   property C03 C04 C18
+//@   requires l.Modules.LockAfter >= 1 && l.Modules.LockWindow >= 0 && l.Modules.LockDuration >= 0
+//@   ensures[C04] step_is_spec: each Store.Save(?s) -> _ =>
+//@       (emits Now() -> ?nw :: emits Now() -> ?nl :: emits Now() -> ?ns :: nw <= nl && nl <= ns &&
+//@          LastAttempt(s) == ns &&
+//@          ite(wasCorrectPassword,
+//@              AttemptCount(s) == old(AttemptCount(s)) && Locked(s) == old(Locked(s)),
+//@              AttemptCount(s) == step_count(old(AttemptCount(s)), old(LastAttempt(s)), nw, l.Modules.LockWindow) &&
+//@              Locked(s) == step_locked(step_count(old(AttemptCount(s)), old(LastAttempt(s)), nw, l.Modules.LockWindow),
+//@                                       old(Locked(s)), nl, l.Modules.LockAfter, l.Modules.LockDuration)))
+//@   ensures[C04] saved_before_report: (result.1 == nil) ==> emits Store.Save(_) -> ?e :: e == nil
+//@   ensures[C04,C03] only_lock_fields: each Store.Save(?s) -> _ => PID(s) == old(PID(s)) && Password(s) == old(Password(s))
+//@   -- C03: the handler lets the login continue only if the account was not locked
+//@   -- at its last clock reading
+//@   ensures[C03] veto_locked: (result.0 == false && result.1 == nil) ==>
+//@       emits Store.Save(?s) -> _ :: emits Now() -> ?t :: final(Locked(s)) <= t && each Now() -> ?t2 => t2 <= t
+//@   ensures[C03] veto_redirects: result.0 ==> emits Redirect(?ro) :: ro.Code == 307 && ro.RedirectPath == l.Config.Paths.LockNotOK
+//@   ensures[C18] no_panic: !panics
+//@   ensures[C18] save_error_outcome: each Store.Save(_) -> ?e => e != nil ==> (result.1 == e && result.0 == false && !emits Redirect(_))
+//@
+//@ func (*Lock).BeforeAuth
+//@   property C03
+//@   ensures veto_locked: (result.0 == false && result.1 == nil) ==>
+//@       emits Store.Save(?s) -> _ :: emits Now() -> ?t :: final(Locked(s)) <= t && each Now() -> ?t2 => t2 <= t
+//@
+//@ func (*Lock).AfterAuthSuccess
+//@   property C04
+//@   ensures success_resets: each Store.Save(?s) -> _ => AttemptCount(s) == 0 && (emits Now() -> ?t :: LastAttempt(s) == t) && Locked(s) == old(Locked(s))
+//@   ensures success_saves: (result.1 == nil) ==> emits Store.Save(_) -> ?e :: e == nil
+//@
+//@ func (*Lock).AfterAuthFail
+//@   property C04
+//@   requires l.Modules.LockAfter >= 1 && l.Modules.LockWindow >= 0 && l.Modules.LockDuration >= 0
+//@   ensures failure_counts: each Store.Save(?s) -> _ =>
+//@       (emits Now() -> ?nw :: AttemptCount(s) == step_count(old(AttemptCount(s)), old(LastAttempt(s)), nw, l.Modules.LockWindow))
+//@
+//@ func (*Lock).Unlock
+//@   property C04
+//@   requires l.Modules.LockWindow >= 0 && l.Modules.LockDuration >= 0
+//@   ensures unlock_clears: each Store.Save(?s) -> _ => AttemptCount(s) == 0 &&
+//@       (emits Now() -> ?n :: Locked(s) <= n && LastAttempt(s) == n - 2 * l.Modules.LockWindow) && PID(s) == key
+//@   ensures unlock_saves: (result == nil) ==> emits Store.Save(_) -> ?e :: e == nil
+//@
+//@ func (*Lock).Lock
+//@   property C04
+//@   ensures lock_sets: each Store.Save(?s) -> _ => (emits Now() -> ?n :: Locked(s) == n + l.Modules.LockDuration) && PID(s) == key
+//@   ensures lock_saves: (result == nil) ==> emits Store.Save(_) -> ?e :: e == nil
+//@
+//@ func (*Lock).Init
+//@   property C03 C04
+//@   ensures[C03] registered_before: (emits Events.Register("Before", EventAuth, ?h) :: fname(h) == "(*Lock).BeforeAuth") &&
+//@                                   (emits Events.Register("Before", EventOAuth2, ?h2) :: fname(h2) == "(*Lock).BeforeAuth")
+//@   ensures[C04] registered_after: (emits Events.Register("After", EventAuth, ?h) :: fname(h) == "(*Lock).AfterAuthSuccess") &&
+//@                                  (emits Events.Register("After", EventAuthFail, ?h2) :: fname(h2) == "(*Lock).AfterAuthFail")
+//@
+//@ func Middleware#1#1
+//@   property C03 C18
+//@   -- the wrapped handler only runs for a user who is not locked at that moment
+//@   ensures[C03] mw_blocks: each Next.ServeHTTP(_, _, _, ?cu) => cu != nil && (before Now() -> ?t :: Locked(cu) <= t)
+//@   ensures[C03] mw_redirects: (!panics && !emits Next.ServeHTTP(_, _, _)) ==> emits Redirect(?ro) :: ro.Code == 307
+//@   ensures[C18] no_panic: !panics
